@@ -17,7 +17,7 @@ pub struct Recombine {
 }
 
 pub fn parts() -> Vec<Box<dyn Part>> {
-    let opts = GenOpts { allow_repeat: true, allow_generics: true, enum_into_existing: true, ..GenOpts::default() };
+    let opts = GenOpts { allow_repeat: false, allow_generics: true, enum_into_existing: true, ..GenOpts::default() };
     vec![Box::new(Valid { opts: opts.clone() }), Box::new(Recombine { opts })]
 }
 
@@ -204,19 +204,58 @@ pub fn check_output(ts: &proc_macro2::TokenStream) -> Result<usize, ShapeFailure
     Ok(items.len())
 }
 
-/// Known-finding signature for a C17 failure: narrow predicate over input structure + failing item class.
-pub fn failure_sig(item: &Item, f: &ShapeFailure) -> Option<String> {
-    if item.is_enum() && (f.class.starts_with("IntoExisting") || f.class.starts_with("TryIntoExisting")) {
-        return Some("enum-into-existing".into());
+/// Known-finding signature for a C17 failure.  In the constructive (`valid`) domain signatures are narrow
+/// structural predicates; in the `recombine` domain (inputs that cross the generator's validity rules — mostly
+/// undiagnosed misuse) they are coarser and namespaced `rc:` so that they never mask a failure of the valid domain.
+pub fn failure_sig(part: &str, input: &str, f: &ShapeFailure) -> Option<String> {
+    let is_enum = input.contains("\nenum S") || input.starts_with("enum S");
+    let base = f.class.trim_start_matches("Try").to_string();
+    let narrow = if is_enum && base.starts_with("IntoExisting") {
+        Some("enum-into-existing".to_string())
+    } else if f.class.ends_with("+post-init") {
+        Some("post-init-body".to_string())
+    } else if generics_in_decl_form(&f.item) {
+        Some("generics-decl-form-in-type-position".to_string())
+    } else if base.starts_with("From") && !is_enum && is_tuple_struct(input) && input.contains("[parent(") {
+        Some("nested-parent-in-tuple-struct".to_string())
+    } else {
+        None
+    };
+    if part == "recombine" {
+        let err: String = f.what.chars().filter(|c| c.is_ascii_alphanumeric() || *c == ' ').take(48).collect::<String>().trim().replace(' ', "-");
+        return Some(narrow.unwrap_or(format!("rc:{}:{}:{}", if is_enum { "enum" } else { "struct" }, base.trim_end_matches("+post-init"), err)));
     }
-    if f.class.ends_with("+post-init") {
-        return Some("post-init-body".into());
-    }
-    None
+    narrow
 }
 
-fn judge(item: &Item, mut labels: Vec<String>, ctx: &Ctx) -> CaseReport {
-    let text = item.render();
+fn is_tuple_struct(input: &str) -> bool {
+    match input.find("struct S") {
+        Some(p) => {
+            let rest = &input[p + "struct S".len()..];
+            let rest = if rest.starts_with('<') { rest.find('>').map(|e| &rest[e + 1..]).unwrap_or(rest) } else { rest };
+            rest.trim_start().starts_with('(')
+        }
+        None => false,
+    }
+}
+
+/// `impl<T: Copy, const N: usize> .. for S<T: Copy, const N: usize>`: the deriving type's parameters re-emitted in
+/// declaration form where arguments are required.
+fn generics_in_decl_form(item: &str) -> bool {
+    for marker in ["for S <", "for & S <", "for & 'o2o S <", "-> S <"] {
+        if let Some(p) = item.find(marker) {
+            let rest = &item[p + marker.len()..];
+            let end = rest.find('>').unwrap_or(rest.len());
+            let args = &rest[..end];
+            if args.contains("const ") || args.replace("::", "").contains(':') || args.contains('=') {
+                return true;
+            }
+        }
+    }
+    false
+}
+
+fn judge(part: &str, text: String, mut labels: Vec<String>, ctx: &Ctx) -> CaseReport {
     let di = match parse_input(&text) {
         Ok(d) => d,
         Err(e) => return CaseReport { key: text, nontrivial: false, labels, verdict: Verdict::Discard(format!("generator produced a non-item: {}", e.chars().take(60).collect::<String>())) },
@@ -234,7 +273,7 @@ fn judge(item: &Item, mut labels: Vec<String>, ctx: &Ctx) -> CaseReport {
                     CaseReport { key: text, nontrivial, labels, verdict: Verdict::Pass }
                 }
                 Err(f) => {
-                    let sig = failure_sig(item, &f);
+                    let sig = failure_sig(part, &text, &f);
                     let verdict = ctx.fail_or_known("C17", sig.as_deref(), format!("accepted input expands to an invalid item: {} [class={}]", f.what, f.class), json!({"input": text, "failure": f.what, "item": f.item, "class": f.class}));
                     CaseReport { key: text, nontrivial, labels, verdict }
                 }
@@ -262,7 +301,7 @@ impl Part for Valid {
         "C17"
     }
     fn rule(&self) -> String {
-        format!("Valid-mode L1 inputs (all features incl. repeat, generics, enum into_existing); embedded expressions/types/patterns come from a well-formed grammar and sit in expression/type/pattern positions by construction.{}", RULE_TAIL)
+        format!("Valid-mode L1 inputs (all features except repeat — that is C14's subject — incl. generics and enum into_existing); embedded expressions/types/patterns come from a well-formed grammar and sit in expression/type/pattern positions by construction.{}", RULE_TAIL)
     }
     fn cases(&self, tier: Tier) -> usize {
         match tier {
@@ -276,7 +315,7 @@ impl Part for Valid {
     fn run_case(&self, tape: &[u16], ctx: &Ctx) -> CaseReport {
         let mut t = Tape::new(tape);
         let (item, labels) = gen_item(&mut t, &self.opts);
-        judge(&item, labels, ctx)
+        judge(self.name(), item.render(), labels, ctx)
     }
 }
 
@@ -521,6 +560,6 @@ impl Part for Recombine {
         let mut t = Tape::new(tape);
         let (mut item, mut labels) = gen_item(&mut t, &self.opts);
         recombine(&mut t, &mut item, &mut labels);
-        judge(&item, labels, ctx)
+        judge(self.name(), item.render(), labels, ctx)
     }
 }
